@@ -92,6 +92,7 @@ func c20Body(o c20Opts) func() {
 		if o.localClose {
 			ths = append(ths, vrt.GoProc("server-closer", 2, func() {
 				vrt.Point("wait-stream", func() bool { return srvStream != nil })
+				vrt.AnyMoment()
 				srvStream.Close()
 			}))
 		}
